@@ -114,6 +114,8 @@ theorem C15_correlate_row (fixed : Bool) (opt : Opt) (taps : List Int) (c : Nat)
 
 example : (1 : Nat) < [1, 2, (3:Int)].length ∧ [7, 7, 7, (7:Int)].length = 4 := by decide
 
+/-- image level (`correlate_rows_impl` with its size-1 shortcut `view_multiplies_scalar` and the `width == 0` return):
+    every row of the result is the Spec row, for every w, h ≥ 0 -/
 theorem C15_correlate_rows (fixed : Bool) (opt : Opt) (taps : List Int) (c : Nat) (src : Int → Int → Int) (w h : Nat)
     (dst : List (List Int)) (hc : c < taps.length) (hdl : dst.length = h) (hdr : ∀ y, y < h → (dst.getD y []).length = w) :
     correlateRows fixed opt taps c src w h dst
@@ -158,6 +160,8 @@ theorem C15_correlate_rows (fixed : Bool) (opt : Opt) (taps : List Int) (c : Nat
       have hy' : y < h := by simpa using hy
       exact C15_correlate_row fixed opt taps c _ w _ hc (hdr y hy')
 
+/-- `convolve_rows` (= `correlate_rows` with `reverse_kernel`) is the textbook convolution `Σ_k ext(i − (k − centre))·taps k`;
+    the border rule uses the reversed kernel's centre -/
 theorem C15_convolve_is_reversed_correlate (fixed : Bool) (opt : Opt) (taps : List Int) (c : Nat) (src : Int → Int → Int) (w h : Nat)
     (dst : List (List Int)) (hc : c < taps.length) (hdl : dst.length = h) (hdr : ∀ y, y < h → (dst.getD y []).length = w) :
     convolveRows fixed opt taps c src w h dst
@@ -172,6 +176,7 @@ theorem C15_convolve_is_reversed_correlate (fixed : Bool) (opt : Opt) (taps : Li
     funext i; exact corrAt_reverse opt taps c _ w i hc
   rw [this]
 
+/-- `correlate_cols` (rows on the transposed views): column x of the result is the Spec row of column x of the source -/
 theorem C15_cols_transpose (fixed : Bool) (opt : Opt) (taps : List Int) (c : Nat) (src : Int → Int → Int) (w h : Nat)
     (dst : List (List Int)) (hc : c < taps.length) :
     correlateCols fixed opt taps c src w h dst
@@ -197,6 +202,8 @@ theorem C15_cols_pointwise (fixed : Bool) (opt : Opt) (taps : List Int) (c : Nat
   rw [getD_map_range, if_pos hy]
   rcases hopt with h | h | h <;> subst h <;> rfl
 
+/-- images narrower than the kernel: output_zero zeroes the whole row, output_ignore leaves it untouched,
+    the extend_* options still produce the full textbook sum -/
 theorem C15_narrower_than_kernel (fixed : Bool) (taps : List Int) (c : Nat) (mem : Int → Int) (w : Nat) (dst : List Int)
     (hc : c < taps.length) (hd : dst.length = w) (hw : w < taps.length) :
     correlateRowImpl fixed .outputZero taps c mem w dst = List.replicate w 0
@@ -231,6 +238,8 @@ theorem C15_border_outputs (fixed : Bool) (taps : List Int) (c : Nat) (mem : Int
   · rw [if_pos hin, if_pos hin, if_pos hin, if_pos hin, (hsum hin).1, (hsum hin).2]; exact ⟨rfl, rfl⟩
   · rw [if_neg hin, if_neg hin, if_neg hin, if_neg hin]; exact ⟨rfl, rfl⟩
 
+/-- `convolve_2d_impl` (flipped kernel indices + bounds test) is the zero-extended 2-D convolution sum, for every
+    width, height, kernel size, centre and pixel position -/
 theorem C15_convolve_2d (src : Int → Int → Int) (w h : Nat) (ker : List Int) (ks cy cx : Nat) (x y : Nat) :
     convolve2dAt src w h ker ks cy cx x y = conv2dSpecAt src w h ker ks cy cx x y := by
   unfold convolve2dAt conv2dSpecAt
@@ -248,6 +257,7 @@ theorem C15_convolve_2d (src : Int → Int → Int) (w h : Nat) (ker : List Int)
   rw [e1, e2, e3, e4]
   split_ifs <;> first | rfl | omega
 
+/-- `extend_row` produces the padded image the policy describes (rows added above and below) -/
 theorem C15_extend_rows (opt : Opt) (n : Nat) (src : Int → Int → Int) (w h : Nat)
     (hopt : opt = .extendPadded ∨ opt = .extendZero ∨ (opt = .extendConstant ∧ 0 < h)) :
     extendRows opt n src w h = extendRowsSpec opt n src w h := by
@@ -290,6 +300,7 @@ theorem C15_extend_rows (opt : Opt) (n : Nat) (src : Int → Int → Int) (w h :
         congr 1
         unfold clampI; split_ifs <;> omega
 
+/-- `extend_col` (through `rotated90cw_view` of source and result) pads left and right -/
 theorem C15_extend_cols (opt : Opt) (n : Nat) (src : Int → Int → Int) (w h : Nat)
     (hopt : opt = .extendPadded ∨ opt = .extendZero ∨ (opt = .extendConstant ∧ 0 < w)) :
     extendCols opt n src w h = extendColsSpec opt n src w h := by
@@ -311,6 +322,8 @@ theorem C15_extend_cols (opt : Opt) (n : Nat) (src : Int → Int → Int) (w h :
   · rw [clampI_inside _ ((h : Int) - 1 - (y : Int)) (by omega) (by omega), clampI_inside _ (y : Int) (by omega) (by omega)]
     congr 1; omega
 
+/-- `extend_boundary` (`extend_col` then `extend_row`, or the direct copy for extend_padded) pads all four sides;
+    extend_constant replicates the nearest edge pixel, also in the corners -/
 theorem C15_extend_boundary (opt : Opt) (n : Nat) (src : Int → Int → Int) (w h : Nat)
     (hopt : opt = .extendPadded ∨ opt = .extendZero ∨ (opt = .extendConstant ∧ 0 < w ∧ 0 < h)) :
     extendBoundary opt n src w h = extendBoundarySpec opt n src w h := by
@@ -353,6 +366,8 @@ theorem C15_extend_boundary (opt : Opt) (n : Nat) (src : Int → Int → Int) (w
     have e2 : (((clampI 0 ((h : Int) - 1) ((i : Int) - (n : Int))).toNat : Nat) : Int) = clampI 0 ((h : Int) - 1) ((i : Int) - (n : Int)) := by omega
     rw [e1, e2, clampI_inside _ (clampI 0 ((h : Int) - 1) ((i : Int) - (n : Int))) hc2.1 (by omega)]
 
+/-- reads: the result does not depend on any source sample outside the row `[0, w)`, or, for extend_padded,
+    outside `[−left_size, w + right_size)` (the declared padding) -/
 theorem C15_access_reads (fixed : Bool) (opt : Opt) (taps : List Int) (c : Nat) (mem mem' : Int → Int) (w : Nat) (dst : List Int)
     (hc : c < taps.length) (hd : dst.length = w)
     (hagree : ∀ j : Int, (if opt = .extendPadded then -(c : Int) ≤ j ∧ j < (w : Int) + ((taps.length - c - 1 : Nat) : Int)
@@ -374,10 +389,23 @@ theorem C15_access_reads (fixed : Bool) (opt : Opt) (taps : List Int) (c : Nat) 
       | (apply hagree; omega)
   rw [hcorr]
 
+/-- writes: exactly the `w` destination entries of the row (the destination row keeps its length) -/
 theorem C15_access_writes (fixed : Bool) (opt : Opt) (taps : List Int) (c : Nat) (mem : Int → Int) (w : Nat) (dst : List Int)
     (hc : c < taps.length) (hd : dst.length = w) :
     (correlateRowImpl fixed opt taps c mem w dst).length = dst.length := by
   rw [C15_correlate_row fixed opt taps c mem w dst hc hd, hd]
   simp [specRow, specRowWith]
+
+/-! ### non-vacuity: concrete instances of the hypotheses, and the model evaluated on a concrete row -/
+
+example : (0 : Nat) < [1, 2, (3:Int)].length ∧ [[(0:Int), 0], [0, 0]].length = 2
+    ∧ ∀ y, y < 2 → ([[(0:Int), 0], [0, 0]].getD y []).length = 2 := by decide
+example : correlateRowImpl false .extendZero [1, 2, 3] 1 (fun j => [10, 20, 30].getD j.toNat 0) 3 [7, 7, 7] = [80, 140, 80] := by decide
+example : correlateRowImpl true .extendConstant [1, 2, 3] 1 (fun j => [10, 20, 30].getD j.toNat 0) 3 [7, 7, 7] = [90, 140, 170] := by decide
+example : correlateRowImpl false .outputIgnore [1, 2, 3] 0 (fun j => [10, 20, 30, 40].getD j.toNat 0) 4 [7, 8, 9, 6] = [140, 200, 9, 6] := by decide
+example : correlateRowImpl false .outputZero [1, 2, 3] 2 (fun j => [10, 20].getD j.toNat 0) 2 [7, 8] = [0, 0] := by decide
+example : (.extendConstant : Opt) = .extendPadded ∨ (.extendConstant : Opt) = .extendZero ∨ ((.extendConstant : Opt) = .extendConstant ∧ 0 < 3 ∧ 0 < 2) := by decide
+example : extendBoundary .extendConstant 1 (fun x y => x + 10 * y) 2 2 = [[0, 0, 1, 1], [0, 0, 1, 1], [10, 10, 11, 11], [10, 10, 11, 11]] := by decide
+example : convolve2dAt (fun x y => if x = 0 ∧ y = 0 then 1 else 0) 3 2 [1, 2, 3, 4, 5, 6, 7, 8, 9] 3 1 1 1 1 = 9 := by decide
 
 end GilVerif.Props.C15
